@@ -26,6 +26,9 @@ from src.extensions.messages import AlignmentResultRowMessage, MultipleAlignment
 from src.workflow_coordinator_factory import WorkflowCoordinatorFactory
 
 
+PMAP_NAMES = ("p_imap", "p_map", "p_uimap", "p_umap")
+
+
 class World:
     def __init__(self, E, cfg):
         self.E = E
@@ -40,7 +43,7 @@ class World:
 
 def install(world):
     E, cfg = world.E, world.cfg
-    saved = (OpticalMap.getInitialAlignment, InitialAlignment.refine, wc.p_imap)
+    saved = (OpticalMap.getInitialAlignment, InitialAlignment.refine, {n: getattr(wc, n) for n in PMAP_NAMES if hasattr(wc, n)})
 
     def fake_initial(self, reference, gen, minPeakDistance, peaksCount, reverseStrand=False):
         key = (self.moleculeId, reference.moleculeId, bool(reverseStrand))
@@ -73,12 +76,20 @@ def install(world):
 
     OpticalMap.getInitialAlignment = fake_initial
     InitialAlignment.refine = fake_refine
-    wc.p_imap = lambda f, items, **kw: map(f, items)
+    # library contract of p_tqdm: p_map / p_imap return results in input order, p_umap / p_uimap in completion order.
+    # Ordered variants are modelled by the builtin map, unordered ones by an adversarial (reversed) completion order.
+    for n in saved[2]:
+        if n in ("p_umap", "p_uimap"):
+            setattr(wc, n, lambda f, items, **kw: list(map(f, items))[::-1])
+        else:
+            setattr(wc, n, lambda f, items, **kw: list(map(f, items)))
     return saved
 
 
 def uninstall(saved):
-    OpticalMap.getInitialAlignment, InitialAlignment.refine, wc.p_imap = saved
+    OpticalMap.getInitialAlignment, InitialAlignment.refine = saved[0], saved[1]
+    for n, v in saved[2].items():
+        setattr(wc, n, v)
 
 
 class StubAligner:
@@ -167,9 +178,10 @@ def all_seeds(world, qid, refs=None):
 
 ORCH_FUNCTIONS = ["src.workflow_coordinator:_WorkflowCoordinator", "src.correlation.peaks_selector:PeaksSelector.selectPeaks",
                   "src.workflow_coordinator_factory:WorkflowCoordinatorFactory.create"]
-ORCH_STUBS = ["OpticalMap.getInitialAlignment -> arbitrary 0..2 seeds or the real EmptyInitialAlignment (scipy/FFT not executed)",
+ORCH_STUBS = ["p_tqdm maps: ordered variants (p_imap/p_map) -> builtin map; unordered variants (p_uimap/p_umap), if the code uses them, -> reversed completion order",
+              "OpticalMap.getInitialAlignment -> arbitrary 0..2 seeds or the real EmptyInitialAlignment (scipy/FFT not executed)",
               "InitialAlignment.refine -> real CorrelationResult with 0..2 arbitrary peaks", "aligner -> row with fresh symbolic Confidence, with or "
-              "without pairs (solver's choice)", "p_imap -> builtin map (ordered)"]
+              "without pairs (solver's choice)"]
 
 
 def orch_configs(tier):
